@@ -110,6 +110,9 @@ class Ctx:
         self.known = known
 
     def tool(self, variant, name):
+        if os.environ.get("VERIF_COVERAGE") and variant != "fuzz":
+            # measurement mode (tools/coverage.sh): every variant is the gcov build
+            return buildmod.tool(buildmod.build("cov"), name)
         return buildmod.tool(self.builds[variant], name)
 
     def known_keys(self):
@@ -361,7 +364,7 @@ def main(argv=None):
     # ---- regression tier: saved replays (fixed defects, boundary cases) and
     # probes of known findings
     rdir = replay_dir(pid)
-    if os.path.isdir(rdir):
+    if os.path.isdir(rdir) and not os.environ.get("VERIF_SKIP_REGRESSION"):   # (development aid: generated tier only)
         for name in sorted(os.listdir(rdir)):
             p = os.path.join(rdir, name)
             if not os.path.exists(os.path.join(p, "case.json")):
@@ -383,7 +386,7 @@ def main(argv=None):
     deadline = time.time() + budget
     nworkers = WORKERS
     merged = {"cases": 0, "evaluations": 0, "nontrivial": set(), "classes": {}, "skipped": {},
-              "samples": [], "known_hits": {}, "hyp_errors": [], "enum_total": 0}
+              "samples": [], "known_hits": {}, "hyp_errors": [], "notes": [], "enum_total": 0}
     failing_cases = []
     if not violations:
         args = [(modname, builds, known, w, seed, tier, deadline, nworkers) for w in range(nworkers)]
@@ -421,11 +424,11 @@ def main(argv=None):
                 d = save_failure(pid, fc)
                 violations.append((os.path.relpath(d, VERIF), bad))
             else:
-                merged["hyp_errors"].append("unrepeatable failure discarded: %s" % (keys,))
+                merged["notes"].append("unrepeatable failure discarded (not a violation): %s" % (keys,))
 
     # ---- optional extra engine phase (libFuzzer campaigns)
     extra_cov = {}
-    if not violations and hasattr(check, "extra_phase"):
+    if not violations and hasattr(check, "extra_phase") and not os.environ.get("VERIF_COVERAGE"):
         try:
             ex = check.extra_phase(ctx, tier, seed)
         except Exception:
@@ -443,7 +446,7 @@ def main(argv=None):
                 d = save_failure(pid, fc)
                 violations.append((os.path.relpath(d, VERIF), bad))
             else:
-                merged["hyp_errors"].append("unrepeatable fuzz artifact discarded")
+                merged["notes"].append("unrepeatable fuzz artifact discarded (not a violation)")
     else:
         extra_nt = 0
 
@@ -478,6 +481,8 @@ def main(argv=None):
         cov["extra_evidence_error"] = traceback.format_exc()
     if merged["hyp_errors"]:
         cov["harness_errors"] = merged["hyp_errors"][:10]
+    if merged["notes"]:
+        cov["notes"] = merged["notes"][:10]
     if violations:
         cov["violation_details"] = [
             {"replay": p, "failures": [abbreviate(f.to_json()) for f in bad][:5]} for p, bad in violations]
@@ -506,6 +511,8 @@ def main(argv=None):
                 print("  failure key=%s: %s" % (f.key, f.msg))
             print("VIOLATION property=%s replay=%s" % (pid, p))
         return 1
+    for e in merged["notes"][:5]:
+        print("NOTE: %s" % e)
     if merged["hyp_errors"]:
         for e in merged["hyp_errors"][:5]:
             print("HARNESS-ERROR: %s" % e)
